@@ -611,6 +611,35 @@ func (e *Env) evalCall(c *CCall) TVal {
 		}
 		return mathInt(t)
 	}
+	if d, ok := e.x.eng.cs.Defs[c.Fn]; ok {
+		if len(d.Params) != len(c.Args) {
+			e.errorf("%s: %d arguments for %d parameters", c.Fn, len(c.Args), len(d.Params))
+			return mathBool("true")
+		}
+		saved := map[string]*TVal{}
+		vals := make([]TVal, len(c.Args))
+		for i := range c.Args {
+			vals[i] = e.Eval(c.Args[i])
+		}
+		for i, p := range d.Params {
+			if old, had := e.vars[p]; had {
+				o := old
+				saved[p] = &o
+			} else {
+				saved[p] = nil
+			}
+			e.vars[p] = vals[i]
+		}
+		r := e.Eval(d.Body)
+		for p, o := range saved {
+			if o == nil {
+				delete(e.vars, p)
+			} else {
+				e.vars[p] = *o
+			}
+		}
+		return r
+	}
 	e.errorf("unknown spec function %s", c.Fn)
 	return mathInt("0")
 }
